@@ -211,6 +211,27 @@ def discharge(fx, site):
                 if any(x in ha for x in la):
                     return "bounds are min(_, d) and max(_, d) of a common d, hence ordered"
             return None
+        if site.what in ("BTreeMap::range", "BTreeSet::range"):
+            # range(a..=b) / range(a..b) dominated by a comparison establishing a <= b on the same two terms
+            r = sym.strip(prov.op(t["args"][1]))
+            while r[0] in ("ref", "deref"):
+                r = sym.strip(r[1])
+            ends = None
+            if r[0] == "call" and (r[1] or "").endswith(("RangeInclusive::<Idx>::new",)) and len(r[2]) == 2:
+                ends = (sym.strip(r[2][0]), sym.strip(r[2][1]))
+            elif r[0] == "agg" and r[4] and "start" in r[4] and "end" in r[4]:
+                f = dict(zip(r[4], r[3]))
+                ends = (sym.strip(f["start"]), sym.strip(f["end"]))
+            if ends:
+                a, e = sym.norm(ends[0]), sym.norm(ends[1])
+                for tb, fb, op, x, y, sw in guards.branch_conditions(b, prov):
+                    for blk, o in ((tb, op), (fb, guards.CMP_NEG[op])):
+                        if blk is None or not b.dominates(blk, bi):
+                            continue
+                        x1, y1 = sym.norm(sym.strip(x)), sym.norm(sym.strip(y))
+                        if (x1 == a and y1 == e and o in ("Le", "Lt")) or (x1 == e and y1 == a and o in ("Ge", "Gt")):
+                            return "range bounds ordered by a dominating comparison (start %s end)" % ("<=" if o in ("Le", "Ge") else "<")
+            return None
         if site.what in ("chunks", "chunks_exact", "windows", "step_by"):
             n = sym.strip(prov.op(t["args"][1]))
             v = const_val(fx, n)
